@@ -51,6 +51,7 @@ type Engine struct {
 	ghosts   map[*types.Func]*ghostInfo
 	ghostVars map[*types.Var]bool
 	bumpMemo  map[*types.Func]map[string]bool
+	declIndexed map[string]bool
 	noEffectRe []*regexp.Regexp
 	argsOnlyRe []*regexp.Regexp // callees that may only write through their arguments
 	pureRe     []pureSpec        // callees that are deterministic functions of their arguments
@@ -79,7 +80,7 @@ type Engine struct {
 func newEngine() *Engine {
 	return &Engine{byPath: map[string]*packages.Package{}, specs: map[string]*PkgSpec{}, specDirs: map[string]*PkgSpec{},
 		units: map[*types.Func]*FuncUnit{}, decls: map[*types.Func]*declInfo{}, ghosts: map[*types.Func]*ghostInfo{},
-		lemmaPos: map[*Lemma]*declInfo{}, ghostVars: map[*types.Var]bool{}, bumpMemo: map[*types.Func]map[string]bool{}, typeTags: map[string]int{}, parallel: 12, timeout: 10, maxVC: 4 << 20,
+		lemmaPos: map[*Lemma]*declInfo{}, ghostVars: map[*types.Var]bool{}, bumpMemo: map[*types.Func]map[string]bool{}, declIndexed: map[string]bool{}, typeTags: map[string]int{}, parallel: 12, timeout: 10, maxVC: 4 << 20,
 		mirrorSrc: map[string]string{}}
 }
 
@@ -114,9 +115,11 @@ func (eng *Engine) loadNoEffect(path string) error {
 			eng.pureRe = append(eng.pureRe, pureSpec{name: f[0], re: re})
 			continue
 		}
-		if strings.HasPrefix(line, "bump:") {
+		if strings.HasPrefix(line, "bump:") || strings.HasPrefix(line, "bumpok:") {
 			// bump:<pkg dir>.<ghost int var> <regex>: args-only callee whose every call is counted
-			f := strings.Fields(strings.TrimPrefix(line, "bump:"))
+			// bumpok: same, but only calls returning a nil error are counted
+			onlyOK := strings.HasPrefix(line, "bumpok:")
+			f := strings.Fields(strings.TrimPrefix(strings.TrimPrefix(line, "bumpok:"), "bump:"))
 			if len(f) != 2 {
 				return fmt.Errorf("%s: malformed bump: line %q", path, line)
 			}
@@ -124,7 +127,7 @@ func (eng *Engine) loadNoEffect(path string) error {
 			if err != nil {
 				return fmt.Errorf("%s: %v", path, err)
 			}
-			eng.bumpRe = append(eng.bumpRe, pureSpec{name: f[0], re: re})
+			eng.bumpRe = append(eng.bumpRe, pureSpec{name: f[0], re: re, onlyOK: onlyOK})
 			eng.argsOnlyRe = append(eng.argsOnlyRe, re)
 			continue
 		}
@@ -360,6 +363,14 @@ func (eng *Engine) checkContract(u *FuncUnit) {
 	for _, pc := range u.C.PreCalls {
 		eng.checkClause(u.Pkg, pc.Cl, u.Decl.Body.Rbrace, u, false)
 	}
+	for n, cl := range u.C.ClosureAccepts {
+		lit := nthFuncLit(u.Decl, n)
+		if lit == nil {
+			eng.broken = append(eng.broken, fmt.Sprintf("%s:%d: %s has no function literal number %d", cl.File, cl.Line, u.Name(), n))
+			continue
+		}
+		eng.checkClause(u.Pkg, cl, lit.Body.Rbrace, u, false)
+	}
 	// loops
 	var loops []ast.Stmt
 	ast.Inspect(u.Decl.Body, func(n ast.Node) bool {
@@ -468,8 +479,9 @@ func replaceIdent(s, id, repl string) string {
 }
 
 type pureSpec struct {
-	name string
-	re   *regexp.Regexp
+	name   string
+	re     *regexp.Regexp
+	onlyOK bool // bumpok: count only calls returning a nil error
 }
 
 func (eng *Engine) ghostVarNamed(name string) bool {
@@ -479,6 +491,21 @@ func (eng *Engine) ghostVarNamed(name string) bool {
 		}
 	}
 	return false
+}
+
+// bumpsOf returns every counter class matching fn.
+func (eng *Engine) bumpsOf(fn *types.Func) []pureSpec {
+	if fn == nil {
+		return nil
+	}
+	full := fn.FullName()
+	var out []pureSpec
+	for _, p := range eng.bumpRe {
+		if p.re.MatchString(full) {
+			out = append(out, p)
+		}
+	}
+	return out
 }
 
 // bumpVar returns the ghost counter incremented by every call of fn, if any.
@@ -590,6 +617,50 @@ func (eng *Engine) noEffect(fn *types.Func) bool {
 
 // isSentinel: package-level error variable initialised by a constructor call
 // (each call yields a distinct non-nil pointer).
+// aliasTargetOf: the package-level variable an initialiser expression names, if any.
+func aliasTargetOf(p *packages.Package, x ast.Expr) *types.Var {
+	var id *ast.Ident
+	switch y := ast.Unparen(x).(type) {
+	case *ast.Ident:
+		id = y
+	case *ast.SelectorExpr:
+		id = y.Sel
+	}
+	if id == nil {
+		return nil
+	}
+	t, _ := p.TypesInfo.Uses[id].(*types.Var)
+	if t == nil || t.Pkg() == nil || t.Parent() != t.Pkg().Scope() {
+		return nil
+	}
+	return t
+}
+
+// sentinelAlias returns the variable v is initialised from (v = otherpkg.ErrX), or nil.
+func (eng *Engine) sentinelAlias(v *types.Var) *types.Var {
+	p := eng.byPath[v.Pkg().Path()]
+	if p == nil {
+		return nil
+	}
+	for _, f := range p.Syntax {
+		for _, d := range f.Decls {
+			gd, ok := d.(*ast.GenDecl)
+			if !ok || gd.Tok != token.VAR {
+				continue
+			}
+			for _, sp := range gd.Specs {
+				vs := sp.(*ast.ValueSpec)
+				for i, n := range vs.Names {
+					if p.TypesInfo.Defs[n] == v && i < len(vs.Values) {
+						return aliasTargetOf(p, vs.Values[i])
+					}
+				}
+			}
+		}
+	}
+	return nil
+}
+
 func (eng *Engine) isSentinel(v *types.Var) bool {
 	p := eng.byPath[v.Pkg().Path()]
 	if p == nil {
@@ -606,6 +677,9 @@ func (eng *Engine) isSentinel(v *types.Var) bool {
 				for i, n := range vs.Names {
 					if p.TypesInfo.Defs[n] != v || i >= len(vs.Values) {
 						continue
+					}
+					if t := aliasTargetOf(p, vs.Values[i]); t != nil {
+						return eng.isSentinel(t) // ErrX = otherpkg.ErrX
 					}
 					call, ok := vs.Values[i].(*ast.CallExpr)
 					if !ok {
@@ -652,4 +726,34 @@ func (fv *FV) callMayWriteHeap(x *ast.CallExpr) bool {
 		return false
 	}
 	return true
+}
+
+// nthFuncLit returns the n-th (1-based, source order) function literal of fd.
+func nthFuncLit(fd *ast.FuncDecl, n int) *ast.FuncLit {
+	var out *ast.FuncLit
+	k := 0
+	ast.Inspect(fd.Body, func(x ast.Node) bool {
+		if l, ok := x.(*ast.FuncLit); ok {
+			k++
+			if k == n {
+				out = l
+			}
+		}
+		return out == nil
+	})
+	return out
+}
+
+func funcLitOrd(fd *ast.FuncDecl, lit *ast.FuncLit) int {
+	k, found := 0, 0
+	ast.Inspect(fd.Body, func(x ast.Node) bool {
+		if l, ok := x.(*ast.FuncLit); ok {
+			k++
+			if l == lit {
+				found = k
+			}
+		}
+		return found == 0
+	})
+	return found
 }
